@@ -1542,6 +1542,49 @@ def rule_S1(ctx, prog, label, rule='S1'):
                   Finding(rule, '%s|%s|%s' % (rule, f.name, pp(own)), n.loc, f.name,
                           '`%s` advances a pointer into %s by the rowstride of `%s`: two matrices of the same shape need not have the same row stride (views, padded owners)' % (
                               pp(n)[:60], sorted('%s%s' % (r[0], r[1]) for r in proots), pp(own)), {}, label))
+    # S1b: a row base pointer steps from row to row by the rowstride - never by the width (rows are padded to an even
+    # number of words, and a window inherits its parent's stride)
+    for f in sorted(prog.all_funcs(), key=lambda f: (f.file, f.line)):
+        if f.name in skip:
+            continue
+        fs = None
+        for n in f.body.walk():
+            if not (n.kind == 'CompoundAssignOperator' and n.op in ('+=', '-=') and type_is_pointer(n.kids[0].type)):
+                continue
+            pt = (n.kids[0].type or '')
+            if 'word' not in pt and 'uint64' not in pt:
+                continue
+            fs = fs or FuncSym(f)
+            off = n.kids[1]
+            men_w = men_s = False
+            stack = [off]
+            while stack:
+                x = stack.pop()
+                x0 = strip(x, casts=True)
+                if x0 is None:
+                    continue
+                if x0.kind == 'MemberExpr' and x0.name == 'width':
+                    men_w = True
+                if x0.kind == 'MemberExpr' and x0.name == 'rowstride':
+                    men_s = True
+                if x0.kind == 'DeclRefExpr' and x0.refkind == 'VarDecl' and fs.single_def(x0.refid) is not None:
+                    stack.append(fs.single_def(x0.refid))
+                stack.extend(x0.kids)
+            if not men_w or men_s:
+                continue
+            p0 = strip(n.kids[0], casts=True)
+            loop = fs.enclosing(n, ('ForStmt', 'WhileStmt', 'DoStmt'))
+            if p0.kind != 'DeclRefExpr' or loop is None:
+                continue
+            indexed = any(x.kind == 'ArraySubscriptExpr' and strip(x.kids[0], casts=True).kind == 'DeclRefExpr' and
+                          strip(x.kids[0], casts=True).refid == p0.refid for x in loop.walk())
+            guarded = any(('rowstride' in pp(i_.kids[0]) and 'width' in pp(i_.kids[0])) for i_ in fs.enclosing_all(n, ('IfStmt',)))
+            if not indexed or guarded:
+                continue
+            rr.instances += 1
+            rr.ob(False, None, Finding(rule, '%s|%s|width-step|%s' % (rule, f.name, p0.ref), n.loc, f.name,
+                                       '`%s` moves the row pointer `%s` to the next row by the width: consecutive rows lie `rowstride` words apart '
+                                       '(width rounded up to an even number for owners, the parent\'s stride for windows)' % (pp(n)[:60], p0.ref), {}, label))
     rr.require_floor(6, 'pointer advances by a rowstride')
     return rr
 
